@@ -113,6 +113,9 @@ V("c02f-actual-bound-from-rows", "C02", {"rule": "C02f", "contains": "_get_proba
   (SSTEPS, "    number_of_actual_counts = detector_efficiency_matrix.shape[1]", "    number_of_actual_counts = detector_efficiency_matrix.shape[0]"))
 V("c02f-sizes-by-unpacking", "C02", "silent",
   (SSTEPS, "    number_of_detectable_counts = detector_efficiency_matrix.shape[0]\n\n    detected_counts_by_mode = [", "    n_detectable, _n_actual = detector_efficiency_matrix.shape\n    number_of_detectable_counts = n_detectable\n\n    detected_counts_by_mode = ["))
+V("c04f-division-inside-nonzero-branch", "C04", "silent",
+  (PHAF, "        if scale_factor == 0.0:\n            scale_factor = 1.0\n        matrix = matrix_reduced / scale_factor\n",
+   "        if scale_factor != 0.0:\n            matrix = matrix_reduced / scale_factor\n        else:\n            matrix = matrix_reduced\n            scale_factor = 1.0\n", 2))
 # ------------------------------------------------------------------------------------------- C20
 V("c20-sub-add", "C20", {"rule": "C20c", "contains": "Sub"}, (EXPR, "ast.Sub: op.sub", "ast.Sub: op.add"))
 V("c20-lt-le", "C20", {"rule": "C20c", "contains": "Lt"}, (EXPR, "ast.Lt: op.lt", "ast.Lt: op.le"))
